@@ -520,7 +520,7 @@ func phaseSched(c *lib.Ctx) {
 			// release, so that a request can run between an operation's unlock and
 			// the unsynchronised statements that follow it (state published before
 			// it is complete).
-			st := vsync.Explore(mkBody(c, sc), vsync.Options{Bound: bound, MaxExecutions: maxExec, Deadline: c.Deadline, StuckTimeout: 30 * time.Second, Trace: true,
+			st := vsync.Explore(mkBody(c, sc), vsync.Options{Bound: bound, MaxExecutions: maxExec, Deadline: c.Deadline, StuckTimeout: 120 * time.Second, Trace: true,
 				ReleasePoints: sc.req >= 0 && len(sc.ops) == 1}, nil)
 			c.Count("sched_executions", int64(st.Executions))
 			c.Count("evals", int64(st.Executions))
@@ -1154,8 +1154,8 @@ func replay(c *lib.Ctx, raw json.RawMessage) string {
 	}
 	mk := mkBody(c, scs[si])
 	rp := scs[si].req >= 0 && len(scs[si].ops) == 1
-	r1, f1 := vsync.RunOne(mk, cs.Schedule, vsync.Options{Trace: true, StuckTimeout: 30 * time.Second, ReleasePoints: rp})
-	r2, f2 := vsync.RunOne(mk, cs.Schedule, vsync.Options{Trace: true, StuckTimeout: 30 * time.Second, ReleasePoints: rp})
+	r1, f1 := vsync.RunOne(mk, cs.Schedule, vsync.Options{Trace: true, StuckTimeout: 120 * time.Second, ReleasePoints: rp})
+	r2, f2 := vsync.RunOne(mk, cs.Schedule, vsync.Options{Trace: true, StuckTimeout: 120 * time.Second, ReleasePoints: rp})
 	if len(r1.Points) != len(r2.Points) || r1.Deadlock != r2.Deadlock || f1 != f2 {
 		return "REPLAY DIVERGED between two runs of the same schedule (engine error)"
 	}
